@@ -126,13 +126,13 @@ def assertionPanics (d : FnDesc) (argTys : List Ty) : Bool :=
        | some target => (match Ty.typeInter target x.2.2 with | some none => true | _ => false)
        | none => false)
 
-/-- second loop: the FIRST descriptor every argument may fit (`len(argTypes) == len(descriptor.ArgumentTypes)`,
-    which a `TypeFn` descriptor satisfies for a call without arguments) -/
+/-- second loop: the FIRST descriptor every argument may fit; descriptors with a `TypeFn` are skipped
+    (after `fix: overloads with a type function never match in the second resolution pass`) -/
 def maybePassFrom (argTys : List Ty) : Nat → List FnDesc → Pick
   | _, [] => .notFound
   | i, d :: ds =>
     let ats := viewArgs d.strict argTys
-    if ats.length == d.args.length && allMaybe ats d.args then
+    if d.typeFn.isNone && ats.length == d.args.length && allMaybe ats d.args then
       (if assertionPanics d argTys then .panic else .found i)
     else maybePassFrom argTys (i + 1) ds
 
